@@ -769,6 +769,30 @@ func (m *endpointManager) resolveWorkloadEndpoints() {
 		delete(m.activeWlEndpoints, id)
 	}
 
+	// promoteShadowed re-queues the preferred endpoint that is shadowed on the given interface
+	// name (if any).  Called whenever the name's active endpoint has gone away: removed, moved to
+	// another interface name, or itself shadowed under another name.
+	promoteShadowed := func(ifaceName string) {
+		bestShadowedId := types.WorkloadEndpointID{}
+		for sId, sWorkload := range m.shadowedWlEndpoints {
+			if sWorkload.Name != ifaceName {
+				continue
+			}
+			if _, pending := m.pendingWlEpUpdates[sId]; pending {
+				// A newer update/removal of that endpoint is already queued and
+				// supersedes the shadowed copy; it must not be overwritten.
+				continue
+			}
+			if bestShadowedId.EndpointId == "" || wlIdsAscending(&sId, &bestShadowedId) {
+				bestShadowedId = sId
+			}
+		}
+		if bestShadowedId.EndpointId != "" {
+			m.pendingWlEpUpdates[bestShadowedId] = m.shadowedWlEndpoints[bestShadowedId]
+			delete(m.shadowedWlEndpoints, bestShadowedId)
+		}
+	}
+
 	// Repeat the following loop until the pending update map is empty.  Note that it's possible
 	// for an endpoint deletion to add a further update into the map (for a previously shadowed
 	// endpoint), so we cannot assume that a single iteration will always be enough.
@@ -792,6 +816,13 @@ func (m *endpointManager) resolveWorkloadEndpoints() {
 					}).Info("New endpoint has same iface name as existing")
 					if wlIdsAscending(&existingId, &id) {
 						logCxt.Info("Existing endpoint takes preference")
+						if oldWorkload != nil {
+							// This endpoint was active under another interface name,
+							// which it no longer claims: give that state up.
+							removeActiveWorkload(logCxt, oldWorkload, id)
+							promoteShadowed(oldWorkload.Name)
+							m.epIDsToUpdateStatus.Add(id)
+						}
 						m.shadowedWlEndpoints[id] = workload
 						delete(m.pendingWlEpUpdates, id)
 						continue
@@ -801,6 +832,8 @@ func (m *endpointManager) resolveWorkloadEndpoints() {
 					removeActiveWorkload(logCxt, m.activeWlEndpoints[existingId], existingId)
 				}
 				logCxt.Info("Updating per-endpoint chains.")
+				// The endpoint becomes (or stays) active: any shadowed copy of it is obsolete.
+				delete(m.shadowedWlEndpoints, id)
 				if oldWorkload != nil && oldWorkload.Name != workload.Name {
 					logCxt.Debug("Interface name changed, cleaning up old state")
 					m.epMarkMapper.ReleaseEndpointMark(oldWorkload.Name)
@@ -816,6 +849,8 @@ func (m *endpointManager) resolveWorkloadEndpoints() {
 					m.wlIfaceNamesToReconfigure.Discard(oldWorkload.Name)
 					m.linkAddrsMgr.RemoveLinkLocalAddress(oldWorkload.Name)
 					delete(m.activeWlIfaceNameToID, oldWorkload.Name)
+					// Another endpoint may have been waiting for the old interface name.
+					promoteShadowed(oldWorkload.Name)
 				}
 				adminUp := workload.State == "active"
 				m.updateWorkloadARPChains(id, workload)
@@ -863,20 +898,7 @@ func (m *endpointManager) resolveWorkloadEndpoints() {
 				if oldWorkload != nil {
 					// Check for another endpoint with the same interface name,
 					// that should now become active.
-					bestShadowedId := types.WorkloadEndpointID{}
-					for sId, sWorkload := range m.shadowedWlEndpoints {
-						logCxt.Infof("Old workload %v", oldWorkload)
-						logCxt.Infof("Shadowed workload %v", sWorkload)
-						if sWorkload.Name == oldWorkload.Name {
-							if bestShadowedId.EndpointId == "" || wlIdsAscending(&sId, &bestShadowedId) {
-								bestShadowedId = sId
-							}
-						}
-					}
-					if bestShadowedId.EndpointId != "" {
-						m.pendingWlEpUpdates[bestShadowedId] = m.shadowedWlEndpoints[bestShadowedId]
-						delete(m.shadowedWlEndpoints, bestShadowedId)
-					}
+					promoteShadowed(oldWorkload.Name)
 				}
 			}
 
